@@ -49,4 +49,16 @@ CHECKS = {
             dict(name="TestC03Exhaustive", quick=dict(timeout=600), thorough=dict(timeout=3000)),
             dict(name="TestC03Random", quick=dict(checks=20000, timeout=600), thorough=dict(checks=150000, shards=15, timeout=3000)),
         ]),
+    "C01": dict(
+        pkg="c01", level="exploration", bins=["dcat"], helpers=["vserver"],
+        technique="property-based testing (rapid): generated byte strings as file content, real dcat binary (serverless and over SSH to an in-process server), oracle = reference line-splitter applied to the (decompressed) content, byte-exact",
+        level_text="The dcat binary built from the working tree is run on generated files (every byte value, protocol delimiter bytes, leading dots, runs around MaxLineLength and around the 32 KiB transport buffer, missing final newline, gzip/zstd) serverless and through a real SSH server; stdout must equal the reference split of the content byte for byte. Known open findings are excluded from the clean generators by construction and recognised by signature on the full-domain generators.",
+        level_note="Trusted: the harness' SplitLong model (unit-tested), gzip/zstd compressors used to prepare inputs. vserver = cmd/dserver without the root check.",
+        tests=[
+            dict(name="TestC01Witness", quick=dict(timeout=120), thorough=dict(timeout=120)),
+            dict(name="TestC01Serverless", quick=dict(checks=700, timeout=600), thorough=dict(checks=4000, shards=8, timeout=3000)),
+            dict(name="TestC01ServerlessFull", quick=dict(checks=300, timeout=600), thorough=dict(checks=2000, shards=4, timeout=3000)),
+            dict(name="TestC01SSH", quick=dict(checks=200, timeout=600), thorough=dict(checks=1500, shards=4, timeout=3000)),
+            dict(name="TestC01SSHFull", quick=dict(checks=100, timeout=600), thorough=dict(checks=1000, shards=2, timeout=3000)),
+        ]),
 }
